@@ -140,6 +140,8 @@ class wrapper(dictattr):
                 kw.update(kwargs)
                 f[_function] = f.function.function
             else:
+                if isinstance(f.function, wrapper):
+                    f[_function] = copy(f.function) ## copy each level before stepping into it: only the top one was copied, so stripping a same-type wrapper further down edited the chain the caller handed over
                 f = f.function
 
         super(wrapper, self).__init__(*args, **kw)
